@@ -31,7 +31,6 @@ func (s *syncer) run#send(data map[string]*mvccpb.KeyValue)
 
 func (s *syncer) pull(key string, prefix bool) (result map[string]*mvccpb.KeyValue, err error)
   flag allocates
-  flag frame=unchecked
   requires s != nil && s.cluster != nil
   modifies gReadErr, gReadResp, gRead
   ensures a-failed-read-is-never-content: err == nil ==> gRead && gReadErr == nil
@@ -54,7 +53,7 @@ func (s *syncer) watch(key string, prefix bool) (w clientv3.Watcher, ch clientv3
   ensures w != nil && ifaceVal(w) != 0 && gWatches == old(gWatches) + 1 && gWatchKey == key && gWatchPrefix == prefix
 
 func (s *syncer) run(key string, prefix bool, send func(data map[string]*mvccpb.KeyValue))
-  flag frame=unchecked
+  modifies allof("ghost:github.com/megaease/easegress/pkg/cluster.gCancels"), allof("ghost:github.com/megaease/easegress/pkg/cluster.gChanges"), allof("ghost:github.com/megaease/easegress/pkg/cluster.gPCS"), allof("ghost:github.com/megaease/easegress/pkg/cluster.gPullFailed"), allof("ghost:github.com/megaease/easegress/pkg/cluster.gPulled"), allof("ghost:github.com/megaease/easegress/pkg/cluster.gRead"), allof("ghost:github.com/megaease/easegress/pkg/cluster.gReadErr#typ"), allof("ghost:github.com/megaease/easegress/pkg/cluster.gReadErr#val"), allof("ghost:github.com/megaease/easegress/pkg/cluster.gReadResp"), allof("ghost:github.com/megaease/easegress/pkg/cluster.gTicks"), allof("ghost:github.com/megaease/easegress/pkg/cluster.gWatchKey"), allof("ghost:github.com/megaease/easegress/pkg/cluster.gWatchPrefix"), allof("ghost:github.com/megaease/easegress/pkg/cluster.gWatches"), allof("ghost:github.com/megaease/easegress/pkg/cluster.lastSent"), allof("ghost:github.com/megaease/easegress/pkg/cluster.sentCount")
   flag allocates
   requires s != nil && s.cluster != nil
   ensures one-round-at-start-and-one-per-tick-and-per-change: gPCS == old(gPCS) + 1 + (gTicks - old(gTicks)) + (gChanges - old(gChanges))
@@ -134,7 +133,6 @@ func (c *cluster) GetRaw#cancel()
 
 func (c *cluster) GetRaw(key string) (kv *mvccpb.KeyValue, err error)
   flag allocates
-  flag frame=unchecked
   requires c != nil
   modifies gReadErr, gReadResp, gRead
   ensures a-failed-read-is-an-error: err == nil ==> gRead && gReadErr == nil
@@ -146,7 +144,6 @@ func (c *cluster) GetRaw(key string) (kv *mvccpb.KeyValue, err error)
 
 func (c *cluster) GetRawPrefix(prefix string) (kvs map[string]*mvccpb.KeyValue, err error)
   flag allocates
-  flag frame=unchecked
   requires c != nil
   modifies gReadErr, gReadResp, gRead
   ensures a-failed-read-is-an-error: err == nil ==> gRead && gReadErr == nil
@@ -208,11 +205,10 @@ ghost var gSentKV int
 ghost var gSentMap int
 
 func (s *syncer) Sync(key string) (ch <-chan *string, err error)
-  flag frame=unchecked
   flag allocates
   closure[1] (data map[string]*mvccpb.KeyValue)
     flag allocates
-    flag frame=unchecked
+    modifies allof("ghost:github.com/megaease/easegress/pkg/cluster.gSends"), allof("ghost:github.com/megaease/easegress/pkg/cluster.gSentNil"), allof("ghost:github.com/megaease/easegress/pkg/cluster.gSentStr")
     requires forall k string :: (k in data) ==> data[k] != nil
     ensures one-item-per-snapshot: gSends == old(gSends) + 1
     ensures absent-key-is-delivered-as-nil: !(key in data) ==> gSentNil
@@ -223,10 +219,9 @@ func (s *syncer) Sync(key string) (ch <-chan *string, err error)
   end
 
 func (s *syncer) SyncRaw(key string) (ch <-chan *mvccpb.KeyValue, err error)
-  flag frame=unchecked
   flag allocates
   closure[1] (data map[string]*mvccpb.KeyValue)
-    flag frame=unchecked
+    modifies allof("ghost:github.com/megaease/easegress/pkg/cluster.gSends"), allof("ghost:github.com/megaease/easegress/pkg/cluster.gSentKV")
     ensures one-item-per-snapshot: gSends == old(gSends) + 1
     ensures the-snapshots-entry-is-delivered-as-it-is: gSentKV == ((key in data) ? ref(data[key]) : 0)
     ghost at send: gSends := gSends + 1
@@ -234,11 +229,10 @@ func (s *syncer) SyncRaw(key string) (ch <-chan *mvccpb.KeyValue, err error)
   end
 
 func (s *syncer) SyncRawPrefix(prefix string) (ch <-chan map[string]*mvccpb.KeyValue, err error)
-  flag frame=unchecked
   flag allocates
   closure[1] (data map[string]*mvccpb.KeyValue)
     flag allocates
-    flag frame=unchecked
+    modifies allof("ghost:github.com/megaease/easegress/pkg/cluster.gSends"), allof("ghost:github.com/megaease/easegress/pkg/cluster.gSentMap")
     requires data != nil
     ensures one-item-per-snapshot: gSends == old(gSends) + 1
     ensures a-copy-with-exactly-the-snapshots-entries: gSentMap != 0 && gSentMap != ref(data) && (forall k string :: ((k in m) <==> (k in data)) && ((k in data) ==> m[k] == data[k]))
@@ -248,11 +242,10 @@ func (s *syncer) SyncRawPrefix(prefix string) (ch <-chan map[string]*mvccpb.KeyV
   end
 
 func (s *syncer) SyncPrefix(prefix string) (ch <-chan map[string]string, err error)
-  flag frame=unchecked
   flag allocates
   closure[1] (data map[string]*mvccpb.KeyValue)
     flag allocates
-    flag frame=unchecked
+    modifies allof("ghost:github.com/megaease/easegress/pkg/cluster.gSends"), allof("ghost:github.com/megaease/easegress/pkg/cluster.gSentMap")
     requires data != nil && (forall k string :: (k in data) ==> data[k] != nil)
     ensures one-item-per-snapshot: gSends == old(gSends) + 1
     ensures exactly-the-snapshots-keys-each-with-its-stored-value: gSentMap != 0 && (forall k string :: ((k in m) <==> (k in data)) && ((k in data) ==> m[k] == str(data[k].Value)))
